@@ -100,6 +100,21 @@ Theorem C13_resume_counts : forall o (l : list (ckey * Z)) n ct (rv : bool) pre 
 Proof. exact resume_counts. Qed.
 Print Assumptions C13_resume_counts.
 
+(* page sizes are 64-bit numbers in a request and [nat]s here: every page size above the number of entries of the
+   listing gives the same page and the same walk (all that is left, no next key) - what the harness hands the model
+   for a request with limit 2^63 or 2^64-1 *)
+Theorem C13_huge_limits : forall {K A} (cmp : K -> K -> comparison) (keyof : A -> K) (l : list A) key off ct rv (n m : nat),
+  (length l < n)%nat -> (length l < m)%nat ->
+  paginate cmp keyof l {| pr_key := key; pr_offset := off; pr_limit := n; pr_count_total := ct; pr_reverse := rv |} =
+  paginate cmp keyof l {| pr_key := key; pr_offset := off; pr_limit := m; pr_count_total := ct; pr_reverse := rv |}.
+Proof. intros K A. exact (@paginate_limit_beyond K A). Qed.
+Print Assumptions C13_huge_limits.
+Theorem C13_huge_limits_walk : forall {K A} (cmp : K -> K -> comparison) (keyof : A -> K) (l : list A) rv (n m : nat),
+  (length l < n)%nat -> (length l < m)%nat ->
+  forall fuel key first, walk cmp keyof fuel l n rv key first = walk cmp keyof fuel l m rv key first.
+Proof. intros K A. exact (@walk_limit_beyond K A). Qed.
+Print Assumptions C13_huge_limits_walk.
+
 (* non-vacuity: a ledger reached by transfers, its listings and a walk in pages of one *)
 Definition c13_ops : list op :=
   [ORecv (ex_packet ex_cctp) [] 0; ORecv (ex_packet ex_hyp) [] 0; ORecv (ex_packet ex_internal) [] 0; ORecv (ex_packet ex_cctp) [] 0].
